@@ -127,6 +127,8 @@ func genC14(t *rapid.T) any {
 	}
 	if hasAsyncCol && rapid.IntRange(0, 5).Draw(t, "tail") == 0 {
 		c.Tail = rapid.SampledFrom([]string{"distinct", "orderby"}).Draw(t, "tailkind")
+	} else if rapid.IntRange(0, 6).Draw(t, "unionall") == 0 {
+		c.Tail = "union-all"
 	} else if rapid.IntRange(0, 5).Draw(t, "nested") == 0 {
 		// multi-dimensional FROM; ONCE there is outside the statement (once per query vs. per inner array)
 		c.Tail = "nested"
@@ -178,6 +180,10 @@ func (c *C14Case) sql(qualified bool) string {
 	}
 	if c.Tail == "orderby" && firstAsync != "" {
 		s += " ORDER BY " + firstAsync + " DESC, ra, rs"
+	}
+	if c.Tail == "union-all" {
+		// the query as the first arm of a UNION ALL whose second arm selects nothing and calls nothing
+		s += " UNION ALL SELECT a AS ra, s AS rs FROM t WHERE a > 100000"
 	}
 	return s
 }
@@ -398,7 +404,7 @@ func checkC14(c *C14Case) Result {
 			}
 		}
 	}
-	if c.Tail == "" || c.Tail == "nested" {
+	if c.Tail == "" || c.Tail == "nested" || c.Tail == "union-all" {
 		got := out.Rows
 		if c.Tail == "nested" {
 			got = flattenOne(got)
